@@ -165,6 +165,8 @@ FAULTS = [
     "insert_file \"blob.bin\"\ninsert_file \"blob.bin\"\n.even\nnop\n", ".include \"inc.mac\"\n.include \"inc.mac\"\n", "nop\n.link 1000\n", ".word a$b\n", "a$ = 1\n", "$ = 1\n.word $\n",
     "a = 1\na 1 { nop }\n", "a = 1\na { }\n", "insert_file \"x\" <40000000000>\n", ".include \"inc.mac\"<200000000000>\n", "make_raw \"o\"<99999999999>\n",
     ".ascii <40000000000>\n", ".ascii \"a\"<-1>\n", ".title x <99999999999>\n", ".rad50 /a/<99999999999>\n", ".even 2\n", ".end main\n", "even 2\n", ".once 1\n", ".page 3\n",
+    ".blkb 177777\n.blkb 177777\nnop\n", ".blkb 177777\n.blkb 177777\nmake_bin \"out\"\n", ".blkb 177777\n.blkb 2\nmake_wav \"out\"\n", ".link 177776\n.word 1, 2, 3\n",
+    ".link 177776\n.word 1, 2, 3\nmake_bin \"out\"\n",
     "\x00", "\ufeff.word 1\n", "nop\r\nnop\r\n", "nop\rnop\r", "\t\t\n \n", "", "\n", ";\n", ";" * 5000, "nop\n" * 3000, ".word " + ", ".join(["1"] * 3000) + "\n", ".word " + " + ".join(["1"] * 60) + "\n",
     ".word " + "(" * 8 + "1" + ")" * 8 + "\n", ".word " + "-" * 8 + "1\n", ".word " + "^c" * 8 + "1\n", ".word " + "(" * 40 + "1" + ")" * 40 + "\n", "x = " + " * ".join(["a"] * 50) + "\na = 2\n.dword x\n",
 ]
@@ -276,7 +278,7 @@ def classify_cli(res):
         return "ok"
     # the report handlers print to stdout, file and usage trouble goes to stderr
     said = res.stderr + res.stdout.decode("utf-8", "replace")
-    if re.search(r"rror|Could not|unsupported|usage", said):
+    if re.search(r"rror|Could not|unsupported|usage|does not fit", said):
         return "failed"
     return "silent-failure"
 
@@ -362,12 +364,12 @@ def run(ctx):
                 sigs.append(("in-process", signature(r), r.exc))
             if idx % 4 == 0 or sigs:
                 for fmt in ("bare", "graphical"):
-                    res = impl.run_cli([src, "-o", os.path.join(d, "out.raw"), "--report-format", fmt], cwd=d, timeout=15.0)
+                    res = impl.run_cli([src, "-o", os.path.join(d, "out.bin" if fmt == "bare" else "out.raw"), "--report-format", fmt], cwd=d, timeout=15.0)
                     cc = classify_cli(res)
                     ctx.count("cli %s: %s" % (fmt, cc))
                     if cc not in ("ok", "failed"):
                         sigs.append(("cli " + fmt, cli_signature(res), res.exc or res.stderr[-300:]))
-                    elif c in ("ok", "failed") and cc != c and not (c == "ok" and re.search(r"make_", text, re.I)):
+                    elif c in ("ok", "failed") and cc != c and not (c == "ok" and (re.search(r"make_", text, re.I) or "does not fit in the 16-bit fields" in (res.stderr or ""))):
                         # ('make_*' writes files only in the command-line run, which may fail there)
                         # the same text must succeed or fail alike under every handler
                         sigs.append(("cli " + fmt, "handler-dependent:%s-vs-%s" % (c, cc), res.stderr[-300:]))
